@@ -175,6 +175,7 @@ def _flow(s: Stream, p, sc, nframes: int) -> dict:
     kind = s.wpick(list(p["flow_kinds"]))
     fl: dict = {"kind": kind}
     xc, yc = round(im / 2 + s.uniform(-1, 1), 2), round(jm / 2 + s.uniform(-1, 1), 2)
+    same_u = stream(int(cfl * 1e9), "gen.same_u").chance(p.get("p_u_constant_in_time", 0.08))
     if kind == "const":
         fl["u0"] = round(s.uniform(-1, 1) * umax, 6)
         fl["v0"] = round(s.uniform(-1, 1) * vmax, 6)
@@ -209,6 +210,9 @@ def _flow(s: Stream, p, sc, nframes: int) -> dict:
                 amps.append(a)
                 prev = a
             fl["amp_" + c] = amps
+        if same_u:
+            # a current whose u-component does not change from frame to frame while v does (a tidal channel)
+            fl["amp_u"] = [fl["amp_u"][0]] * nframes
     N = truth.vert(sc)["N"]
     if N > 1 and s.chance(p["p_levels"]):
         fl["levels"] = [round(s.uniform(0.3, 1.0), 3) for _ in range(N)]
@@ -431,6 +435,11 @@ def gen_scenario(seed: int, p: dict | None = None) -> dict:
     sc["time"] = T
     # --- grid
     im, jm = s.randint(*p["grid_i"]), s.randint(*p["grid_j"])
+    if stream(seed, "gen.biggrid").chance(p.get("p_big_grid", 0.015)):
+        im, jm = im + 250, jm + 130        # more than 2**15 cells: flat indices no longer fit 16 bits
+        big = True
+    else:
+        big = False
     g: dict = {"imax0": im, "jmax0": jm}
     g["mask"] = _mask(s, p, jm, im)
     if s.chance(p["p_bathy_var"]):
@@ -451,6 +460,11 @@ def gen_scenario(seed: int, p: dict | None = None) -> dict:
     else:
         g["metric"] = {"kind": "const", "dx": dx,
                        "dy": dx * s.pick([0.5, 2.0, 0.8]) if s.chance(p["p_metric_aniso"]) else dx}
+    if big:
+        # grid spacing that varies gently over the whole (large) grid
+        bs = stream(seed, "gen.biggrid.metric")
+        g["metric"] = {"kind": "vary", "dx": dx, "ax": round(bs.uniform(-0.003, 0.003), 5),
+                       "ay": round(bs.uniform(-0.004, 0.004), 5), "ratio": bs.pick([1.0, 0.5, 2.0])}
     N = s.randint(*p["N"])
     v = {"N": N, "Vtransform": 2 if s.chance(p["p_vtransform2"]) else 1}
     v["Vstretching"] = s.pick([1, 2, 4]) if v["Vtransform"] == 2 else s.pick([1, 1, 2, 4])
@@ -475,6 +489,11 @@ def gen_scenario(seed: int, p: dict | None = None) -> dict:
         g["lonlat"] = {"kind": "stereo", "xp0": round(s.uniform(-500, 500), 1),
                        "yp0": round(s.uniform(-3500, -2000), 1), "dxs": s.pick([0.8, 4.0, 20.0]),
                        "rot": round(s.uniform(-40, 40), 1), "lon_c": round(s.uniform(0, 60), 1)}
+    env = stream(seed, "gen.environment")
+    if env.chance(p.get("p_h_integer", 0.08)):
+        g["h_store"] = env.pick(["i4", "i2"])
+    if env.chance(p.get("p_staggered_masks", 0.5)):
+        g["staggered_masks"] = True
     g["subgrid"] = _subgrid(s, p, jm, im)
     if len(sea_cells(sc)) < 4:
         g["mask"] = "open"
@@ -486,6 +505,18 @@ def gen_scenario(seed: int, p: dict | None = None) -> dict:
     sc["flow"] = _flow(s, p, sc, len(sc["frames"]["offsets"]))
     # --- release, ibm, tracker, output
     sc["release"] = _release(s, p, sc)
+    if big:
+        # half of the particles in the northernmost rows (cells with the largest flat index)
+        bs = stream(seed, "gen.biggrid.rows")
+        m_ = truth.mask_rho(sc)
+        xlo_, xhi_, ylo_, yhi_ = truth.valid_region(sc)
+        for r in sc["release"]["rows"]:
+            if bs.chance(0.5):
+                y = round(bs.uniform(max(ylo_, yhi_ - 8), yhi_ - 0.3), 3)
+                if m_[int(round(y)), int(round(r["X"]))] and abs(y - round(y)) != 0.5:
+                    r["Y"] = y
+                    hh = float(truth.bathymetry(sc)[int(round(y)), int(round(r["X"]))])
+                    r["Z"] = min(r["Z"], round(hh * 0.9, 3))
     sc["ibm"] = _ibm(s, p, sc)
     tr: dict = {"advection": s.wpick(list(p["schemes"]))}
     dxm = float(truth.metric(sc)[0].min())
@@ -618,6 +649,10 @@ def features(sc) -> set[str]:
         f.add("toml")
     if sc.get("frames", {}).get("land_fill"):
         f.add("land_fill")
+    if g.get("h_store"):
+        f.add("integer_bathymetry")
+    if g.get("staggered_masks"):
+        f.add("staggered_masks")
     return f
 
 
